@@ -91,6 +91,8 @@ Matches(lp, t) ==
     [] lp = "startx" -> Len(t) > 0 /\ t[1] = 120                                  \* ^x
     [] lp = "min3"   -> Len(t) >= 3                                                \* ^.{3,}$  (whitespace-sensitive)
     [] lp = "any"    -> TRUE                                                      \* .*
+    [] lp = "lower0" -> \A j \in 1..Len(t) : t[j] \in 97..122                      \* ^[a-z]*$  (accepts the empty string, is anchored)
+    [] lp = "optx"   -> Len(t) = 0 \/ t[1] = 120                                  \* ^(x.*)?$
 
 Cmp(op, a, n) == CASE op = "<"  -> a < n
                    [] op = "<=" -> a <= n
